@@ -1,4 +1,5 @@
 import QcoVerif.Properties.C01
+import QcoVerif.Lemmas.Unroll
 /-
   C06 — applying repetition modifiers unrolls n back-to-back copies, once.
 
@@ -10,10 +11,13 @@ import QcoVerif.Properties.C01
      start + k·T;
    * counts are read when modifiers are applied (fixed or registry-provided, default 1), a count of 1 adds
      nothing, operations that are not sub-circuits are left alone.
-  NOT proved (`unroll_counts`, `unroll_resets`, `unroll_idempotent` for the heap-level `applyModifiers`: they need
-  a frame argument over the recursive copy) — these clauses are evaluated on the implementation and compared
-  with the model on every generated program; the library "n-fold concatenation" clause is false of model and
-  code (known finding R5).
+   * **heap level, flat blocks** (`unroll_flat_partial`, `unroll_flat_twice_partial`, `copy_of_flat_block`): for a sub-circuit
+     whose nodes are leaf operations, `applyModifiers` leaves count 1 and exactly `max 1 n` times as many leaf nodes, a
+     second application adds nothing, and the copy it starts from is a fresh flat block that changes nothing existing
+     (Lemmas/Unroll.lean: `add_spec`, `extend_spec`, `copy_flat`, loop invariant `RepInv`).
+  NOT proved: the same for NESTED blocks (`unroll_counts`: occurrences × product of the enclosing counts; needs the argument
+  at every level plus separation between sibling sub-circuits) — evaluated on the implementation and compared with the
+  model on every generated program; the library "n-fold concatenation" clause is false of model and code (finding R5).
 -/
 namespace Qco.C06
 
@@ -75,6 +79,161 @@ theorem apply_leaf (w : World) (f o : Nat) (h : (w.op o).isComp = false) : w.app
   cases f with
   | zero => rfl
   | succ f => simp [World.applyModifiers, h]
+
+/-! ### the heap-level statement for a flat block
+
+`applyModifiers` (= `apply_modifiers_to_self`) on a block all of whose nodes are leaf operations.  The general statement
+(arbitrary nesting: occurrences multiply with the product of the enclosing counts) needs the same argument for every
+level plus a separation argument between sibling sub-circuits and is NOT proved; the harness evaluates it on the
+implementation at every `apply_modifiers`. -/
+
+theorem foldl_id_of {α β} (f : α → β → α) (L : List β) (a : α) (h : ∀ b ∈ L, f a b = a) : L.foldl f a = a := by
+  induction L with
+  | nil => rfl
+  | cons x xs ih =>
+    rw [List.foldl_cons, h x List.mem_cons_self]
+    exact ih (fun b hb => h b (List.mem_cons_of_mem _ hb))
+
+/-- **unrolling a flat block** (`_partial`: flat blocks only).  For a sub-circuit `c` whose nodes are leaf operations,
+    with repetition count `n` (fixed or registry-provided, read now): after `apply_modifiers_to_self`
+    * its count is `1`,
+    * its graph holds exactly `max 1 n` times as many nodes as before, all of them leaf operations
+      (`n - 1 + 1` in truncated subtraction: a count of `0` is unrolled as one copy — as the code does),
+    * the count registry is untouched. -/
+theorem unroll_flat_partial (w : World) (f c : Nat) (hc : c < w.ops.size) (hcomp : (w.op c).isComp = true)
+    (hflat : FlatIn w c) :
+    ((w.applyModifiers (f + 1) c).op c).rep = .fixed 1 ∧
+    ((w.applyModifiers (f + 1) c).op c).graph.length =
+      (w.op c).graph.length * (w.repCount (w.op c).rep - 1 + 1) ∧
+    FlatIn (w.applyModifiers (f + 1) c) c ∧
+    (w.applyModifiers (f + 1) c).rreg = w.rreg ∧
+    c < (w.applyModifiers (f + 1) c).ops.size ∧ ((w.applyModifiers (f + 1) c).op c).isComp = true := by
+  -- phase 1: the pristine copy
+  obtain ⟨hid, hf⟩ := copy_flat w c hcomp hflat
+  have hccls : (w.op c).cls = .comp := by
+    unfold Op.isComp at hcomp; exact eq_of_beq hcomp
+  have base : RepInv w c w.ops.size (w.op c).graph.length (w.copy c).1 0 := by
+    have hcold := hf.old c hc
+    refine ⟨by rw [hf.size]; omega, hf.rreg, noLink_rep hcold, (noLink_cls hcold).trans hccls, ?_, ?_,
+      by rw [hf.size]; omega, by omega, ?_, hf.len, ?_⟩
+    · rw [noLink_graph hcold]; simp
+    · intro n hn
+      rw [noLink_graph hcold] at hn
+      have := hflat n hn
+      refine ⟨by rw [hf.size]; omega, ?_⟩
+      rw [noLink_isComp (hf.old n this.1)]; exact this.2
+    · unfold Op.isComp; rw [hf.cls]; rfl
+    · intro n hn
+      rw [mem_listing_iff] at hn
+      obtain ⟨e, he, hen⟩ := hn
+      have hb := hf.nodes e he
+      rw [hen] at hb
+      exact ⟨hb.2, hf.fresh n hb.1 hb.2⟩
+  -- phase 2: the loop
+  have loop := repLoop_inv w c w.ops.size (w.op c).graph.length
+    (List.range (w.repCount (w.op c).rep - 1)) (w.copy c).1 0 base
+  rw [List.length_range, Nat.zero_add] at loop
+  -- unfold the definition
+  rw [World.applyModifiers]
+  simp only [hcomp, Bool.not_true, Bool.false_eq_true, if_false]
+  rw [hid] at *
+  generalize hw2 : (List.range (w.repCount (w.op c).rep - 1)).foldl
+      (fun w_1 _ => (w_1.copy w.ops.size).1.extend c (w_1.copy w.ops.size).2) (w.copy c).1 = w2 at loop
+  have hw2' : (List.range (w.repCount (w.op c).rep - 1)).foldl
+      (fun w_1 _ => match w_1.copy w.ops.size with | (w_2, cp) => w_2.extend c cp) (w.copy c).1 = w2 := hw2
+  -- phase 3: reset the count; phase 4: the nodes are leaves, nothing more happens
+  have hc2 : c < w2.ops.size := loop.hc
+  have hop3 : ∀ j, (w2.setOp c { w2.op c with rep := .fixed 1 }).op j =
+      if c = j then { w2.op c with rep := .fixed 1 } else w2.op j := by
+    intro j; rw [op_setOp]
+    by_cases hj : c = j
+    · subst hj; simp only [hc2, and_self, if_true]
+    · simp only [hj, false_and, if_false]
+  have hleafs : ∀ n ∈ listing ((w2.setOp c { w2.op c with rep := .fixed 1 }).op c).graph,
+      (w2.setOp c { w2.op c with rep := .fixed 1 }).applyModifiers f n =
+        w2.setOp c { w2.op c with rep := .fixed 1 } := by
+    intro n hn
+    rw [hop3 c, if_pos rfl] at hn
+    have := loop.cflat n hn
+    apply apply_leaf
+    rw [hop3 n]
+    by_cases hcn : c = n
+    · subst hcn
+      have hcc : (w2.op c).isComp = true := by unfold Op.isComp; rw [loop.ccls]; rfl
+      rw [hcc] at this; cases this.2
+    · rw [if_neg hcn]; exact this.2
+  have hfold := foldl_id_of (fun (w : World) (n : Nat) => w.applyModifiers f n)
+    (listing ((w2.setOp c { w2.op c with rep := .fixed 1 }).op c).graph)
+    (w2.setOp c { w2.op c with rep := .fixed 1 }) hleafs
+  rw [hfold]
+  have hc3 : (w2.setOp c { w2.op c with rep := .fixed 1 }).op c = { w2.op c with rep := .fixed 1 } := by
+    rw [hop3 c, if_pos rfl]
+  refine ⟨?_, ?_, ?_, ?_, by rw [setOp_size]; exact hc2, ?_⟩
+  · rw [hc3]
+  · rw [hc3]
+    show (w2.op c).graph.length = _
+    rw [loop.clen]
+  · intro n hn
+    rw [hc3] at hn
+    have := loop.cflat n hn
+    refine ⟨by rw [setOp_size]; exact this.1, ?_⟩
+    rw [hop3 n]
+    by_cases hcn : c = n
+    · subst hcn
+      have hcc : (w2.op c).isComp = true := by unfold Op.isComp; rw [loop.ccls]; rfl
+      rw [hcc] at this; cases this.2
+    · rw [if_neg hcn]; exact this.2
+  · show w2.rreg = w.rreg
+    exact loop.rreg
+  · rw [hc3]
+    show (w2.op c).isComp = true
+    unfold Op.isComp; rw [loop.ccls]; rfl
+
+/-- the pristine copy `applyModifiers` starts from: a fresh composite (identity = old heap size) with the same count and
+    one fresh leaf node per node of the block; every object that existed keeps kind, qubits, count and graph. -/
+theorem copy_of_flat_block (w : World) (o : Nat) (ho : (w.op o).isComp = true) (hflat : FlatIn w o) :
+    (w.copy o).2 = w.ops.size ∧ ((w.copy o).1.op (w.copy o).2).rep = (w.op o).rep ∧
+    ((w.copy o).1.op (w.copy o).2).graph.length = (w.op o).graph.length ∧
+    FlatIn (w.copy o).1 (w.copy o).2 ∧
+    ∀ j, j < w.ops.size → ((w.copy o).1.op j).noLink = (w.op j).noLink := by
+  obtain ⟨hid, hf⟩ := copy_flat w o ho hflat
+  rw [hid]
+  refine ⟨rfl, hf.rep, hf.len, ?_, hf.old⟩
+  intro n hn
+  rw [mem_listing_iff] at hn
+  obtain ⟨e, he, hen⟩ := hn
+  have hb := hf.nodes e he
+  rw [hen] at hb
+  exact ⟨hb.2, hf.fresh n hb.1 hb.2⟩
+
+/-- **applying the modifiers a second time adds nothing** (flat block): the count stays `1`, the number of nodes is
+    unchanged, the nodes are still leaf operations. -/
+theorem unroll_flat_twice_partial (w : World) (f g c : Nat) (hc : c < w.ops.size) (hcomp : (w.op c).isComp = true)
+    (hflat : FlatIn w c) :
+    (((w.applyModifiers (f + 1) c).applyModifiers (g + 1) c).op c).rep = .fixed 1 ∧
+    (((w.applyModifiers (f + 1) c).applyModifiers (g + 1) c).op c).graph.length =
+      ((w.applyModifiers (f + 1) c).op c).graph.length := by
+  obtain ⟨h1, _, h3, _, h5, h6⟩ := unroll_flat_partial w f c hc hcomp hflat
+  obtain ⟨k1, k2, _, _, _, _⟩ := unroll_flat_partial (w.applyModifiers (f + 1) c) g c h5 h6 h3
+  refine ⟨k1, ?_⟩
+  rw [k2, h1]
+  show _ * (1 - 1 + 1) = _
+  simp
+
+/-- non-vacuity: a block with one `Rx180` and a fixed count of 3 is a flat block of an existing composite. -/
+def exFlat : World :=
+  { ops := #[{ cls := .comp, rep := .fixed 3, graph := [{ node := 1, parent := none, key := [0] }] },
+             { cls := .rx180, qs := [0], dur := .glob .mw }] }
+
+example : 0 < exFlat.ops.size ∧ (exFlat.op 0).isComp = true ∧ FlatIn exFlat 0 := by
+  refine ⟨by decide, by decide, ?_⟩
+  intro n hn
+  have : listing (exFlat.op 0).graph = [1] := by
+    simp [exFlat, World.op, listing, sortedEntries]
+  rw [this] at hn
+  simp only [List.mem_singleton] at hn
+  subst hn
+  exact ⟨by decide, by decide⟩
 
 /-- non-vacuity of `chain_span`: three copies of a block of duration 2 (16 units) starting at 1. -/
 example : leadSpan [8] (chain 8 16 3) = (0, 48) := by decide
